@@ -57,6 +57,12 @@ def _self_reads(f: FuncInfo, expr_root: Optional[ast.AST], repo: Repo, depth: in
                 while x is not n:
                     path.append(x.attr)
                     x = x.value
+                # a field compared through str() / repr() / bytes() is compared by a coarser notion than its own equality
+                # (str(Token) forgets the terminal type): a different access path than the bare field
+                pc = _parent(top)
+                if f.name in ('__eq__', '__ne__') and isinstance(pc, ast.Call) and isinstance(pc.func, ast.Name) \
+                        and pc.func.id in ('str', 'repr', 'bytes', 'len') and pc.args and pc.args[0] is top:
+                    path = ['<%s>' % pc.func.id] + path
                 out.add('.'.join([n.attr] + list(reversed(path))))
         elif isinstance(n, ast.Call):
             fn = n.func
